@@ -46,6 +46,23 @@ fn main() {
             println!("{}", serde_json::to_string(&out).unwrap());
             0
         }
+        "one" => {
+            // debugging aid: rngsim one <ID> <tier> <idx> [--spec]
+            let scn = props::scenario(&args[2]).expect("property");
+            let tier = tier_of(&args[3]);
+            let idx: u64 = args[4].parse().unwrap();
+            let seed = engine::env_u64("VERIF_SEED", 1);
+            let mut rng = prng::Prng::new(engine::run_seed(seed, scn.id(), idx));
+            let spec = scn.generate(&mut rng, tier);
+            if args.len() > 5 {
+                println!("{}", serde_json::to_string(&spec).unwrap());
+            }
+            let mut st = spec::Stats::default();
+            let r = engine::execute_guarded(scn.as_ref(), &spec, &mut st);
+            println!("{:?}", r);
+            println!("{:?}", st.counters);
+            0
+        }
         "replay" => engine::replay(&|id| props::scenario(id), &args[2]),
         other => {
             eprintln!("unknown mode {}", other);
